@@ -54,9 +54,10 @@ def entered_chain(ex, env, level, items, flag_ix=None, special=None):
             hi = i
             break
     done = set()
+    outer = []  # named items of the enclosing levels: they are parsed first and may sit right of a command name
     while level is not None:
         claimed = set(done)
-        for f in level_named(level):
+        for f in outer + level_named(level):
             for i in range(lo, hi):
                 it = items[i]
                 if i in claimed or it.kind not in ("short", "long"):
@@ -120,6 +121,7 @@ def entered_chain(ex, env, level, items, flag_ix=None, special=None):
                 j += step
             if specials:
                 chain.append(nxt.names[0])
+                outer = outer + level_named(level)
                 level = nxt.level
                 lo, hi = first + 1, j
                 done = set()
@@ -128,6 +130,7 @@ def entered_chain(ex, env, level, items, flag_ix=None, special=None):
             done |= set(range(first, j))
             continue
         chain.append(nxt.names[0])
+        outer = outer + level_named(level)
         level = nxt.level
         lo = first + 1
         done = set()
@@ -238,7 +241,12 @@ class Oracle(TokOracle):
                     return
                 path = tuple(rda(x) for x in payload.payload[0].items)
                 if path != chain:
-                    report("help-for-wrong-level", words, (cls, payload), ["stdout", "help of level %r, got %r" % (chain, path)])
+                    extra = None
+                    if chain and path == chain[:len(path)] and self.ancestor_field_fails(ex2, env, g, items, chain):
+                        # the known finding again: the failing field of an enclosing level wins over the subcommand's help;
+                        # here the enclosing level then finds the help flag itself and prints *its* help
+                        extra = {"finding_key": "enclosing-level-field-fails-and-hides-subcommand-help"}
+                    report("help-for-wrong-level", words, (cls, payload), ["stdout", "help of level %r, got %r" % (chain, path)], extra)
         if g.level is None:
             leaf(ex, [])
         else:
